@@ -12,7 +12,8 @@ a symbolic construction leaves the log, the registry and the class's __init__ ca
 from __future__ import annotations
 
 import eqlmc  # noqa: F401
-from entity_query_language import an, entity, let, infer, symbolic_mode, rule_mode
+from entity_query_language import (an, the, entity, let, infer, symbolic_mode, rule_mode, MultipleSolutionFound,
+                                   NoSolutionFound)
 from entity_query_language.symbolic import SymbolicExpression
 
 from .. import worlds as W
@@ -45,7 +46,8 @@ KONS = {
     "K0": lambda n: W.Hand0(),                             # hand-written __init__(self), no argument
 }
 DECL = {"DB": "Base", "DS": "Sub", "DH": "Hand", "DU": "USub", "DD": "Dflt", "D0": "Hand0",
-        "DBc": "Base", "DSk": "Sub"}     # DBc: with a condition (v.k >= 1); DSk: predicate form with a field constraint
+        "DBc": "Base", "DSk": "Sub",     # DBc: with a condition (v.k >= 1); DSk: predicate form with a field constraint
+        "DHt": "Hand"}                   # DHt: the(entity(let(Hand))): NoSolutionFound / the instance / MultipleSolutionFound
 SYMB = ("YB", "YH", "YS")
 MAX_Q = 2
 
@@ -171,6 +173,8 @@ def run_case(hist, inst):
         flags = set()
         evaluated = set()
         constructed_since_decl = {}
+        with symbolic_mode():
+            the_probe = the(entity(let(W.Item, src)))
         for i, op in enumerate(hist):
             trans += 1
             try:
@@ -221,6 +225,10 @@ def run_case(hist, inst):
                     elif op == "DSk":                     # Sub(v=7): every Sub is constructed with the default v
                         with symbolic_mode():
                             q = an(entity(cls(v=7)))
+                    elif op == "DHt":
+                        v = let(cls)
+                        with symbolic_mode():
+                            q = the(entity(v))
                     elif op in ("DB", "DH", "DD", "D0"):
                         v = let(cls)
                         with symbolic_mode():
@@ -239,7 +247,18 @@ def run_case(hist, inst):
                         flags.add("constructed-between-declaration-and-evaluation" if qi not in evaluated
                                   else "constructed-after-first-evaluation")
                     try:
-                        got_objs = list(q.evaluate())
+                        if isinstance(q, type(the_probe)):
+                            # `the`: the outcome class is decided by the number of live instances
+                            try:
+                                got_objs = [q.evaluate()]
+                            except NoSolutionFound:
+                                got_objs = []
+                            except MultipleSolutionFound:
+                                got_objs = [o for o in log if isinstance(o, cls)] if len(exp) >= 2 else ["Multiple"]
+                            if len(exp) >= 2 and len(got_objs) == 1:
+                                got_objs = ["no MultipleSolutionFound"]
+                        else:
+                            got_objs = list(q.evaluate())
                     except Exception as e:
                         return ("evaluate-raised", i, op, exc_obs(e), "a list"), trans, flags
                     got = sorted(id(o) for o in got_objs)
